@@ -27,7 +27,7 @@ type SpecEnv struct {
 	cur    *State
 	old    *State
 	vars   map[string]T
-	locals func(name string) (T, bool)
+	locals func(name string, env *SpecEnv) (T, bool)
 	iter   func() (T, bool)
 	result []T
 	depth  int
@@ -206,7 +206,7 @@ func (e *SpecEnv) lookupVar(name string) (T, bool) {
 		return v, true
 	}
 	if e.locals != nil {
-		if v, ok := e.locals(name); ok {
+		if v, ok := e.locals(name, e); ok {
 			return v, true
 		}
 	}
